@@ -79,5 +79,22 @@ lazy_static! {
     pub(crate) static ref DRIFT_TABLES: DriftTables = serde_json::from_slice(TABLE_BYTES).unwrap();
 }
 
+// Verification hook (only compiled with `--cfg alpha_g_verif`).
+// Tables exactly as parsed: ((time [s], radius [m], correction [rad]), z upper bound [m]).
+#[cfg(alpha_g_verif)]
+#[allow(clippy::type_complexity)]
+pub(crate) fn verif_drift_tables() -> Vec<(Vec<(f64, f64, f64)>, f64)> {
+    DRIFT_TABLES
+        .0
+        .iter()
+        .map(|(table, z)| {
+            (
+                table.0.iter().map(|&(t, r, c)| (t.value, r.value, c.value)).collect(),
+                z.value,
+            )
+        })
+        .collect()
+}
+
 #[cfg(test)]
 mod tests;
